@@ -145,6 +145,25 @@ func (e *Env) seedCorpus(emit func(seedCase)) {
 		emit(seedCase{m: strings.Repeat("z", n), p: "q", class: "every-length-mnemonic"})
 		emit(seedCase{m: "z", p: strings.Repeat("q", n), class: "every-length-passphrase"})
 	}
+	// every length 1..150 in code points for multi-byte units, in either position, also
+	// against an empty other argument
+	for _, u := range []string{"\u00e9", "\ud55c", "\U0001f600", "\u3042\u3099"} {
+		for n := 1; n <= 150; n++ {
+			if n > 40 && n%3 != 0 && !e.Thorough() {
+				continue
+			}
+			s := strings.Repeat(u, n)
+			emit(seedCase{m: "m", p: s, class: "every-length-multibyte-passphrase"})
+			emit(seedCase{m: s, p: "", class: "every-length-multibyte-mnemonic-empty-passphrase"})
+			if n%5 == 0 {
+				emit(seedCase{m: "", p: s, class: "empty-mnemonic-multibyte-passphrase"})
+			}
+		}
+	}
+	for k := 0; k < e.pick(100, 2000); k++ {
+		em(g.RandString(r, 1+r.Intn(30)), "", "random-mnemonic-empty-passphrase")
+		em("", g.RandString(r, 1+r.Intn(30)), "empty-mnemonic-random-passphrase")
+	}
 	// ASCII prefix / suffix of every length around a character that NFKD changes
 	for k := 0; k <= 40; k++ {
 		c := string(g.pick(r, g.decomp))
